@@ -101,16 +101,17 @@ func RunME(p *MEProg) string {
 
 // GMEProg is a concurrent workload on a GCPMultiEndpoint over in-memory servers.
 type GMEProg struct {
-	Property string `json:"property,omitempty"`
-	Kind     string `json:"kind"` // "gme"
-	G        int    `json:"goroutines"`
-	Iter     int    `json:"iterations"`
-	Updates  int    `json:"updates"`
-	Outages  int    `json:"outages"`
-	Updaters int    `json:"updaters,omitempty"` // goroutines calling UpdateMultiEndpoints concurrently (default 1)
-	Seed     uint64 `json:"seed"`
-	Pert     int    `json:"perturbation"`
-	Failure  string `json:"failure,omitempty"`
+	Property   string `json:"property,omitempty"`
+	Kind       string `json:"kind"` // "gme"
+	G          int    `json:"goroutines"`
+	Iter       int    `json:"iterations"`
+	Updates    int    `json:"updates"`
+	Outages    int    `json:"outages"`
+	Updaters   int    `json:"updaters,omitempty"`   // goroutines calling UpdateMultiEndpoints concurrently (default 1)
+	CloseEarly bool   `json:"closeEarly,omitempty"` // Close() is called while the updaters are still at work (an application shutting down under a configuration watcher)
+	Seed       uint64 `json:"seed"`
+	Pert       int    `json:"perturbation"`
+	Failure    string `json:"failure,omitempty"`
 }
 
 // RunGME: RPCs on several MultiEndpoint names || UpdateMultiEndpoints || outages || GCPConfig().
@@ -219,11 +220,44 @@ func RunGME(p *GMEProg) string {
 		}(u)
 	}
 	fin := make(chan struct{})
-	go func() { wg.Wait(); close(stop); ug.Wait(); close(fin) }()
+	closedEarly := false
+	go func() {
+		wg.Wait()
+		if p.CloseEarly {
+			time.Sleep(time.Duration(p.Seed%300) * time.Microsecond)
+			func() {
+				defer func() {
+					if r := recover(); r != nil {
+						bad.Store("panic", fmt.Sprintf("Close: %v", r))
+					}
+				}()
+				gme.Close()
+			}()
+			closedEarly = true
+			time.Sleep(200 * time.Microsecond) // a few more updates hit the closed object
+		}
+		close(stop)
+		ug.Wait()
+		close(fin)
+	}()
 	select {
 	case <-fin:
 	case <-time.After(30 * time.Second):
 		return "C06|GCPMultiEndpoint workload did not finish within 30s"
+	}
+	if closedEarly {
+		if v, ok := bad.Load("panic"); ok {
+			return "C16,C15|panic in GCPMultiEndpoint workload: " + v.(string)
+		}
+		// C16: Close released everything, also what an update in flight or a later update had dialed
+		for _, e := range eps {
+			for dl := time.Now().Add(5 * time.Second); gmesim.Live(e) > 0; time.Sleep(time.Millisecond) {
+				if time.Now().After(dl) {
+					return fmt.Sprintf("C16|5s after Close() (called while UpdateMultiEndpoints calls were in flight) endpoint %s still has %d transport connections: a pool outlived the object", e, gmesim.Live(e))
+				}
+			}
+		}
+		return ""
 	}
 	defer gme.Close()
 	if v, ok := bad.Load("panic"); ok {
